@@ -39,6 +39,9 @@ def shards(tier, seed):
     return out
 
 
+_BL = {"i": 0}
+
+
 def one(ctx, sk, curve, dom, d, k, digest, at, cls_hint, keybase, via="sign_digest"):
     """Judge one sign_digest(k=k) / sign_number(k=k) call."""
     n = dom.n
@@ -63,11 +66,16 @@ def one(ctx, sk, curve, dom, d, k, digest, at, cls_hint, keybase, via="sign_dige
             want_exc = "RSZeroError"
         elif want == "s0":
             want_exc = "RSZeroError"
+    _BL["i"] += 1
+    dig_arg = digest
+    if via != "sign_number" and _BL["i"] % 3 == 0:
+        dig_arg = gen.pick_container(digest, _BL["i"] // 3)[1]     # same bytes, another legal container (incl. items wider than a byte)
+        ctx.count("bytes_like_arguments")
     try:
         if via == "sign_number":
             got = sk.sign_number(e, k=k)
         else:
-            got = sk.sign_digest(digest, sigencode=lambda r, s, o: (r, s, o), k=k, allow_truncate=at)
+            got = sk.sign_digest(dig_arg, sigencode=lambda r, s, o: (r, s, o), k=k, allow_truncate=at)
         outcome = None
     except RSZeroError:
         outcome = "RSZeroError"
